@@ -2,7 +2,7 @@
 # Part 1 (c16_tree): CO_Tree / Sparse_Row explored to closure against std::map, with sanitizers at the
 #   smaller key alphabet and with the repository's production flags at the larger one.
 # Part 2 (c16_rows): dense == sparse lock-step over Linear_Expression histories.
-_SAN = ["-O2", "-g", "-fsanitize=address,undefined", "-fno-sanitize-recover=undefined", "-fno-omit-frame-pointer", "-DNDEBUG=1"]
+_SAN = ["-O1", "-fsanitize=address,undefined", "-fno-sanitize-recover=undefined", "-fno-omit-frame-pointer", "-DNDEBUG=1"]
 HARNESSES = {
     "c16_tree": {"src": ["harness/c16_tree.cc"], "variant": "asan", "flags": NOAC, "opt": _SAN},
     "c16_tree_prod": {"src": ["harness/c16_tree.cc"], "variant": "prod", "flags": NOAC},
@@ -14,8 +14,8 @@ def _runs(tier):
         return [
             {"harness": "c16_tree", "args": ["--mode", "tree", "--keys", "8"], "budget": 120},
             {"harness": "c16_tree", "args": ["--mode", "row", "--keys", "6", "--minsize", "5"], "budget": 120},
-            {"harness": "c16_tree_prod", "args": ["--mode", "tree", "--keys", "10"], "budget": 150},
-            {"harness": "c16_tree_prod", "args": ["--mode", "row", "--keys", "8", "--minsize", "7"], "budget": 150},
+            {"harness": "c16_tree_prod", "args": ["--mode", "tree", "--keys", "9"], "budget": 150},
+            {"harness": "c16_tree_prod", "args": ["--mode", "row", "--keys", "7", "--minsize", "6"], "budget": 150},
             {"harness": "c16_rows", "args": ["--depth", "2"], "budget": 150},
         ]
     # budgets add up to 2700 s so that the tier terminates by itself within 45 minutes even on a loaded machine
